@@ -535,6 +535,10 @@ class HostileWorld(World):
         for t in sched.deaths:
             if t.name == "daemon-loop":
                 continue
+            if t.name == "oneway-call":
+                # the thread of a one-way call is neither the request loop nor a pool worker: when the user's exception
+                # cannot even be rendered by the default error handler the thread ends, nobody else is affected
+                continue
             ctx.violate("thread-died", "%s:%s" % (t.name, t.died[0]), "thread %s died: %r" % (t.name, t.died))
 
 
